@@ -4,7 +4,7 @@ units/*.rs and kani/*.rs; this file only wires them to property ids.)"""
 
 COMMON_TRUSTED = [
     'Verus 0.2026.09.13 (VIR/AIR encoding, Z3) and Kani 0.68 / CBMC 6.11 themselves',
-    'extraction rules D1-D6, I1-I9, A1 of DESIGN.md 2.1 (self-checked each run: erase(generated)==repo text)',
+    'extraction rules D1-D6, idioms I1-I29, A1 of DESIGN.md 2.1, 11.2 and 11.9 (each application listed under assumptions) (self-checked each run: erase(generated)==repo text)',
     'machine model: usize = 64 bit; Verus integers mathematical with explicit overflow obligations',
 ]
 
